@@ -344,3 +344,127 @@ class ClassLockCheck(object):
                             if len(new[0]) <= 6:
                                 self.missing[f.id].append(new)
                                 changed = True
+
+
+SCALAR_TYPES = {'int', 'unsigned int', 'long', 'unsigned long', 'bool', 'char', 'unsigned char', 'short', 'unsigned short', 'long long',
+                'unsigned long long', 'size_t', 'time_t', 'double', 'float', 'signed char'}
+
+
+class EscapeAnalysis(object):
+    """Iterators / references obtained from guarded containers must not be used after the lock under which
+    they were obtained has been released (check-then-act across a lock gap).
+    Must-analysis: state = set of locals that are currently *valid*; a release of any lock kills every local
+    obtained under it; a use of a tainted local that is not valid is reported."""
+
+    def __init__(self, fn, la, table):
+        self.fn, self.la = fn, la
+        self.guarded = set(table)
+        # primary lock(s) of a field: the locks named in every alternative of every mode
+        self.primary = {}
+        for bf, modes in table.items():
+            alts = [set(l for (l, m) in alt) for alts_ in modes.values() for alt in alts_]
+            self.primary[bf] = set.intersection(*alts) if alts else set()
+        self.var_locks = collections.defaultdict(set)
+        self.tainted = self._taint()
+        self.bad = []
+        if self.tainted:
+            self._solve()
+
+    def _is_guarded_expr(self, v, tainted):
+        fn = self.fn
+        refs = fn.subtree_refs(v)
+        return any(bfield(r) in self.guarded for r in refs if r.startswith('f:')) or bool(refs & tainted)
+
+    def _taint(self):
+        fn = self.fn
+        fn.defs_of_var('')
+        tainted = set()
+        types = {}
+        for i in fn.all_nodes():
+            n = fn.N(i)
+            if n['k'] == 'DeclStmt':
+                for d in n['decls']:
+                    types[d['ref']] = (fn.types[d['t']], d.get('isref'))
+        changed = True
+        while changed:
+            changed = False
+            for ref, defs in fn._defs.items():
+                if ref in tainted or not ref.startswith('v:') or ref not in types:
+                    continue
+                t, isref = types[ref]
+                base = t.replace('const ', '').strip()
+                if base in SCALAR_TYPES and not isref:
+                    continue
+                for (_, v) in defs:
+                    if v is not None and self._is_guarded_expr(v, tainted):
+                        tainted.add(ref)
+                        changed = True
+                        break
+        # which locks protect what each tainted local points into
+        for _ in range(4):
+            for ref in tainted:
+                for (_, v) in fn._defs.get(ref, []):
+                    if v is None:
+                        continue
+                    for r in fn.subtree_refs(v):
+                        if r.startswith('f:') and bfield(r) in self.guarded:
+                            self.var_locks[ref] |= self.primary[bfield(r)]
+                        elif r in tainted:
+                            self.var_locks[ref] |= self.var_locks[r]
+        return tainted
+
+    def _solve(self):
+        fn, la = self.fn, self.la
+        defnodes = collections.defaultdict(list)    # node -> [ref] defined there (with guarded value)
+        for ref in self.tainted:
+            for (node, v) in fn.defs_of_var(ref):
+                if v is not None:
+                    defnodes[node].append((ref, v))
+        IN = {fn.entry: frozenset()}
+        work = collections.deque([fn.entry])
+        reported = set()
+        it = 0
+        while work:
+            it += 1
+            if it > 20000:
+                raise AnalysisBroken('escape analysis does not converge in %s' % fn.id)
+            b = work.popleft()
+            valid = IN[b]
+            locks = la.IN.get(b)
+            if locks is None:
+                continue
+            for e in fn.blocks[b].elems:
+                n = e.get('n')
+                if n is not None:
+                    nd = fn.N(n)
+                    if nd['k'] == 'DeclRefExpr' and nd.get('ref') in self.tainted:
+                        ref = nd['ref']
+                        # a use unless this node is the target of a (re)definition
+                        par = fn.parent.get(n)
+                        is_def_target = False
+                        if par is not None:
+                            pn = fn.N(par)
+                            if pn['k'] in ('BinaryOperator',) and pn.get('op') == '=' and pn['ch'][0] == n:
+                                is_def_target = True
+                            if pn['k'] == 'CXXOperatorCallExpr' and pn.get('op') == '=' and len(pn['ch']) > 1 and pn['ch'][1] == n:
+                                is_def_target = True
+                        if not is_def_target and ref not in valid and (ref, n) not in reported:
+                            reported.add((ref, n))
+                            self.bad.append((ref, n, sorted(locks)))
+                    for (ref, v) in defnodes.get(n, []):
+                        if locks:
+                            valid = valid | {ref}
+                        else:
+                            valid = valid - {ref}
+                new_locks = la._apply(locks, e)
+                gone = set(x[0] for x in locks if x not in new_locks)
+                if gone:
+                    # everything obtained under a released protecting lock is stale
+                    valid = frozenset(v for v in valid if not (self.var_locks[v] & gone))
+                locks = new_locks
+            for (s, lab) in fn.succ_edges(b):
+                old = IN.get(s)
+                new = valid if old is None else (old & valid)
+                if new != old:
+                    IN[s] = new
+                    work.append(s)
